@@ -36,8 +36,10 @@ QuotaCase(r) ==
             upper == 4 * H + 50 * (cdoc + cres)
         IN /\ (IF r.big.cd >= nv THEN TRUE ELSE Bad("cost_below_number_of_values"))
            /\ (IF r.big.cd <= K * upper THEN TRUE ELSE Bad("cost_above_documented_model"))
-           /\ (r.api = "native" /\ r.nextra > 0 =>
-                 IF r.big.cs >= NumValuesSeq(SubSeq(m.vals, 2, Len(m.vals))) THEN TRUE ELSE Bad("skipped_not_charged_to_skipping_quota"))
+           /\ LET e == m.env @@ r.env
+                  S == IF HasRef(m.env) /\ HasRef(r.env) THEN SubFrom(e, RefNodes(m.env) \X RefNodes(r.env)) ELSE {}
+                  sk == SumSeq([i \in DOMAIN m.types |-> IF i <= Len(r.types) THEN NumSkipped(e, S, m.vals[i], m.types[i], r.types[i]) ELSE NumValues(m.vals[i])], 1)
+              IN IF r.big.cs >= sk THEN TRUE ELSE Bad("skipped_not_charged_to_skipping_quota")
 Next == /\ l <= Len(Rec)
         /\ LET r == Rec[l] IN
            IF "abort" \in DOMAIN r THEN Bad("abort")
